@@ -280,6 +280,21 @@ mod t {
             }
         }
     }
+    /// the same value, every table filled in the opposite order
+    pub fn build_rev(s: &Spec) -> toml::Value {
+        match s {
+            Spec::Arr(v) => toml::Value::Array(v.iter().map(build_rev).collect()),
+            Spec::Inline(p) | Spec::Table(p) => {
+                let mut t = toml::Table::new();
+                for (k, v) in p.iter().rev() {
+                    t.insert(k.clone(), build_rev(v));
+                }
+                toml::Value::Table(t)
+            }
+            Spec::Aot(v) => toml::Value::Array(v.iter().map(|p| build_rev(&Spec::Table(p.clone()))).collect()),
+            other => build(other),
+        }
+    }
     pub fn build(s: &Spec) -> toml::Value {
         match s {
             Spec::S(x) => toml::Value::String(x.clone()),
@@ -489,6 +504,32 @@ fn main() {
                 let mut s = String::new();
                 te::dump_table(&tb, &mut s);
                 out.push_str(&format!("{i} B {}\n", hex(&s)));
+            }
+            #[cfg(feature = "t")]
+            {
+                // equality of decoded values does not depend on the order the tables were filled in
+                // (a repeated key keeps the value inserted last: compare only when keys are unique)
+                fn unique(p: &[(String, Spec)]) -> bool {
+                    let mut seen = std::collections::BTreeSet::new();
+                    p.iter().all(|(k, v)| {
+                        seen.insert(k.clone())
+                            && match v {
+                                Spec::Inline(q) | Spec::Table(q) => unique(q),
+                                Spec::Aot(els) => els.iter().all(|q| unique(q)),
+                                Spec::Arr(a) => a.iter().all(|e| match e {
+                                    Spec::Inline(q) | Spec::Table(q) => unique(q),
+                                    _ => true,
+                                }),
+                                _ => true,
+                            }
+                    })
+                }
+                if unique(&root) {
+                    let a = t::build(&Spec::Table(root.clone()));
+                    let b = t::build_rev(&Spec::Table(root.clone()));
+                    let nan = format!("{a:?}").contains("NaN");
+                    out.push_str(&format!("{i} TQ {}\n", if nan { "nan".to_string() } else { (a == b && b == a).to_string() }));
+                }
             }
             #[cfg(feature = "t_display")]
             {
